@@ -152,7 +152,7 @@ def run_job(job):
         out['assumptions'] = sorted(lib.USED)
     except Unsupported as e:
         out['undecided'] = 'unsupported: %s' % e
-    except (KeyError, AttributeError, TypeError, IndexError) as e:
+    except (KeyError, AttributeError, TypeError, IndexError, z3.Z3Exception) as e:
         # the sidecar contract refers to something (a local, a field, a call shape) that the code no longer has: the unit is undecided for
         # this tree -- never a violation, and not silently green either (exit 2)
         out['undecided'] = 'contract does not fit the code shape: %s: %s [%s]' % (type(e).__name__, e, traceback.format_exc().strip().splitlines()[-3].strip()[:160])
